@@ -40,6 +40,13 @@ pub struct MockApi {
     pub kv_writes: Vec<(u8, Vec<u8>, Vec<u8>)>,
     /// methods whose call fails (a RuntimeError is returned instead of an answer)
     pub fail_methods: std::collections::BTreeSet<String>,
+    /// optional resource ledger: amounts per bucket / vault node, divisibility and supply per resource; when enabled the
+    /// bucket / vault / resource-manager methods are answered from it instead of from scripted answers
+    pub ledger: bool,
+    pub amounts: BTreeMap<NodeId, Decimal>,
+    pub divisibility: BTreeMap<GlobalAddress, u8>,
+    pub supply: BTreeMap<GlobalAddress, Decimal>,
+    pub next_node: u8,
 }
 
 impl MockApi {
@@ -50,6 +57,11 @@ impl MockApi {
         self.calls.push((*receiver, method.to_string(), args));
         if self.fail_methods.contains(method) {
             return Err(RuntimeError::SystemError(radix_engine::errors::SystemError::NotAnObject));
+        }
+        if self.ledger {
+            if let Some(r) = self.ledger_call(receiver, method) {
+                return r;
+            }
         }
         if let Some(v) = self.per_node.get(&(*receiver, method.to_string())) {
             return Ok(v.clone());
@@ -76,6 +88,111 @@ impl MockApi {
             }
             "get_non_fungible_local_ids" => Ok(scrypto_encode(&IndexSet::<NonFungibleLocalId>::new()).unwrap()),
             _ => panic!("MockApi: no scripted answer for method {}", method),
+        }
+    }
+}
+
+impl MockApi {
+    fn ledger_err() -> RuntimeError {
+        RuntimeError::SystemError(radix_engine::errors::SystemError::NotAnObject)
+    }
+    fn fresh_node(&mut self, resource: GlobalAddress, amount: Decimal) -> NodeId {
+        self.next_node += 1;
+        let mut b = [self.next_node; NodeId::LENGTH];
+        b[0] = EntityType::InternalGenericComponent as u8;
+        b[1] = 200;
+        let n = NodeId(b);
+        self.amounts.insert(n, amount);
+        self.outer_objects.insert(n, resource);
+        n
+    }
+    fn round_down(amount: Decimal, divisibility: u8) -> Decimal {
+        amount.checked_round(divisibility as i32, RoundingMode::ToNegativeInfinity).unwrap()
+    }
+    /// the resource ledger: Some(answer) when the method is one it models
+    fn ledger_call(&mut self, receiver: &NodeId, method: &str) -> Option<Result<Vec<u8>, RuntimeError>> {
+        use radix_engine_interface::blueprints::resource::*;
+        let args = self.calls.last().unwrap().2.clone();
+        let enc = |v: &dyn Fn() -> Vec<u8>| Some(Ok(v()));
+        match method {
+            BUCKET_GET_AMOUNT_IDENT | VAULT_GET_AMOUNT_IDENT if self.amounts.contains_key(receiver) => {
+                let a = self.amounts[receiver];
+                enc(&|| scrypto_encode(&a).unwrap())
+            }
+            BUCKET_TAKE_ADVANCED_IDENT | VAULT_TAKE_ADVANCED_IDENT | BUCKET_TAKE_IDENT | VAULT_TAKE_IDENT
+                if self.amounts.contains_key(receiver) =>
+            {
+                let (amount, strategy) = if method == BUCKET_TAKE_ADVANCED_IDENT || method == VAULT_TAKE_ADVANCED_IDENT {
+                    let i: BucketTakeAdvancedInput = scrypto_decode(&args).unwrap();
+                    (i.amount, i.withdraw_strategy)
+                } else {
+                    let i: BucketTakeInput = scrypto_decode(&args).unwrap();
+                    (i.amount, WithdrawStrategy::Exact)
+                };
+                let resource = self.outer_objects[receiver];
+                let div = *self.divisibility.get(&resource).unwrap_or(&18);
+                let rounded = Self::round_down(amount, div);
+                let taken = match strategy {
+                    WithdrawStrategy::Exact => {
+                        if rounded != amount {
+                            return Some(Err(Self::ledger_err()));
+                        }
+                        amount
+                    }
+                    WithdrawStrategy::Rounded(RoundingMode::ToNegativeInfinity) | WithdrawStrategy::Rounded(RoundingMode::ToZero) => rounded,
+                    WithdrawStrategy::Rounded(_) => panic!("MockApi ledger: rounding mode not modelled"),
+                };
+                if taken.is_negative() || taken > self.amounts[receiver] {
+                    return Some(Err(Self::ledger_err()));
+                }
+                let left = self.amounts[receiver].checked_sub(taken).unwrap();
+                self.amounts.insert(*receiver, left);
+                let n = self.fresh_node(resource, taken);
+                enc(&|| scrypto_encode(&Bucket(Own(n))).unwrap())
+            }
+            VAULT_PUT_IDENT | BUCKET_PUT_IDENT if self.amounts.contains_key(receiver) => {
+                let i: BucketPutInput = scrypto_decode(&args).unwrap();
+                let src = i.bucket.0 .0;
+                let a = self.amounts.remove(&src).unwrap_or(Decimal::ZERO);
+                let total = self.amounts[receiver].checked_add(a).unwrap();
+                self.amounts.insert(*receiver, total);
+                enc(&|| scrypto_encode(&()).unwrap())
+            }
+            FUNGIBLE_RESOURCE_MANAGER_MINT_IDENT => {
+                let i: FungibleResourceManagerMintInput = scrypto_decode(&args).unwrap();
+                let resource = GlobalAddress::new_or_panic(receiver.0);
+                let s0 = *self.supply.get(&resource).unwrap_or(&Decimal::ZERO);
+                self.supply.insert(resource, s0.checked_add(i.amount).unwrap());
+                let n = self.fresh_node(resource, i.amount);
+                enc(&|| scrypto_encode(&Bucket(Own(n))).unwrap())
+            }
+            RESOURCE_MANAGER_BURN_IDENT => {
+                let i: ResourceManagerBurnInput = scrypto_decode(&args).unwrap();
+                let resource = GlobalAddress::new_or_panic(receiver.0);
+                let a = self.amounts.remove(&i.bucket.0 .0).unwrap_or(Decimal::ZERO);
+                let s0 = *self.supply.get(&resource).unwrap_or(&Decimal::ZERO);
+                self.supply.insert(resource, s0.checked_sub(a).unwrap());
+                enc(&|| scrypto_encode(&()).unwrap())
+            }
+            RESOURCE_MANAGER_GET_TOTAL_SUPPLY_IDENT => {
+                let resource = GlobalAddress::new_or_panic(receiver.0);
+                let s0 = *self.supply.get(&resource).unwrap_or(&Decimal::ZERO);
+                enc(&|| scrypto_encode(&Some(s0)).unwrap())
+            }
+            RESOURCE_MANAGER_GET_RESOURCE_TYPE_IDENT => {
+                let resource = GlobalAddress::new_or_panic(receiver.0);
+                let d = *self.divisibility.get(&resource).unwrap_or(&18);
+                enc(&|| scrypto_encode(&ResourceType::Fungible { divisibility: d }).unwrap())
+            }
+            RESOURCE_MANAGER_DROP_EMPTY_BUCKET_IDENT => {
+                let i: ResourceManagerDropEmptyBucketInput = scrypto_decode(&args).unwrap();
+                let a = self.amounts.remove(&i.bucket.0 .0).unwrap_or(Decimal::ZERO);
+                if !a.is_zero() {
+                    return Some(Err(Self::ledger_err()));
+                }
+                enc(&|| scrypto_encode(&()).unwrap())
+            }
+            _ => None,
         }
     }
 }
